@@ -30,7 +30,17 @@ def dataclass_to_dict(obj: Any) -> Any:
 
 def format_colang_parsing_error_message(exception, colang_content):
     """Improves readability of Colang error messages."""
-    line = colang_content.splitlines()[exception.line - 1]
+    # NOTE: not every parsing exception carries a (valid) position, e.g. lark's DedentError has no
+    # "line" attribute and an unexpected end of input has `line=None`; in that case only the
+    # message of the exception is used.
+    line_no = getattr(exception, "line", None)
+    lines = colang_content.splitlines()
+    if not isinstance(line_no, int) or not 1 <= line_no <= len(lines):
+        return f"{exception}"
+    line = lines[line_no - 1]
     # NOTE: for Colang 1.0 parsing exceptions, there is no "column" attribute.
-    marker = " " * (getattr(exception, "column", 1) - 1) + "^"
+    column = getattr(exception, "column", None)
+    if not isinstance(column, int) or column < 1:
+        column = 1
+    marker = " " * (column - 1) + "^"
     return f"{exception}:\n{line}\n{marker}"
